@@ -35,7 +35,13 @@ RULE = (
     "session). "
     "Oracle: expected projection (key, serialised meta fields, {name: value}, loaded) computed from the "
     "spec by the documented rule (size/nfiles when not None, the other fields when truthy) versus the "
-    "projection read attribute-wise from what comes back; key sets equal, entries equal one by one; in "
+    "projection read attribute-wise from what comes back; key sets equal, entries equal one by one; in about half of the SQLite cases the program also takes a view at a drawn prefix "
+    "(DataIndex.view: a second handle with its own identity cache on the SAME SQLite connection), writes / "
+    "deletes 0-4 entries in a row through it (reserved key names, so no key is written through two "
+    "handles), issues explicit commits through the parent or the view before / after, and ends each session "
+    "with a commit through a drawn handle; every write is thus followed by a commit on some handle of the "
+    "connection and must be durable: the reopened index must equal the model and what the open parent "
+    "handle reported (by iteration, which does not commit) right before close; in the other "
     "half of the SQLite cases the last session also registers an ObjectStorage over a store holding "
     "hand-written .dir objects, adds 1-2 unloaded directory entries (isdir + .dir hash, loaded None/False), "
     "triggers the lazy load through iteritems / iteritems(prefix) / __getitem__ or info of a child / ls / "
@@ -234,13 +240,57 @@ def mutated_spec(spec, field, value):
     return dict(spec, meta={**(spec["meta"] or {}), field: value})
 
 
-def apply_ops(index, ops, model):
+VIEW_OPS = ("view", "vset", "vdel", "commit")
+
+
+def view_full_key(state, op):
+    """Full key of a write through the current view, or None when no view prefix is known yet."""
+    if state.get("prefix") is None:
+        return None
+    return (*state["prefix"], *op["name"])
+
+
+def get_view(index, state):
+    """The handle of the current view (a second DataIndex on the same SQLite connection); re-taken lazily in
+    a new session."""
+    if state.get("prefix") is None:
+        return None
+    if state.get("view") is None:
+        state["view"] = index.view(state["prefix"])
+    return state["view"]
+
+
+def apply_ops(index, ops, model, state=None):
+    state = state if state is not None else {}
+    vkeys = state.setdefault("vkeys", set())
     for op in ops:
+        kind = op["op"]
+        if kind == "view":
+            state["prefix"] = tuple(op["prefix"])
+            state["view"] = index.view(state["prefix"])
+            continue
+        if kind == "commit":
+            view = get_view(index, state) if op["via"] == "view" else None
+            (view if view is not None else index).commit()
+            continue
+        if kind in ("vset", "vdel"):
+            view = get_view(index, state)
+            if view is None:
+                continue
+            name, full = tuple(op["name"]), view_full_key(state, op)
+            if kind == "vset":
+                view[name] = build_entry(dict(op, key=list(name)))   # keys are relative to the view's prefix
+                model[full] = dict(op, op="set", key=list(full))
+                vkeys.add(full)
+            elif full in model and full in vkeys:
+                del view[name]
+                del model[full]
+            continue
         key = tuple(op["key"])
-        if op["op"] == "set":
+        if kind == "set":
             index[key] = build_entry(op)
             model[key] = op
-        elif op["op"] == "mutate":
+        elif kind == "mutate":
             if key in model:
                 # fetch the entry, change one serialised field in place, store it again under its key
                 entry = index[key]
@@ -358,49 +408,59 @@ def compare_snapshots(form, pre, post, viols):
                                                    f"reopened {k1!r}"))
 
 
-def arm_sqlite(ops, split, d, viols, lazy=None, classes=None):
-    """DataIndex.open -> writes -> commit -> [read] -> close -> reopen -> [more writes -> commit -> close ->
-    reopen] -> read. With `lazy`, the last session additionally registers object storage, adds unloaded
-    directory entries, loads them lazily and commits; the reopened index (no storage) must equal what the
-    open handle reported right before close. Returns the final model (without the lazily loaded keys)."""
+def arm_sqlite(ops, split, d, viols, lazy=None, classes=None, final_commit="parent"):
+    """DataIndex.open -> program -> commit -> [read] -> close -> reopen -> [more program -> commit -> close ->
+    reopen] -> read. The program may take views (second handles on the same SQLite connection), write through
+    them and commit through either handle; the commit that ends a session goes through `final_commit`.
+    Every write is followed by a commit on some handle of the connection, hence durable: the reopened index
+    must equal the model AND what the open parent handle reported right before close. With `lazy`, the last
+    session additionally registers object storage, adds unloaded directory entries, loads them lazily and
+    commits. Returns the final model (without the lazily loaded keys)."""
     from dvc_data.index import DataIndex
 
     path = os.path.join(d, "index.sqlite")
     model = {}
     classes = classes if classes is not None else []
     sessions = [ops[:split], ops[split:]] if 0 < split < len(ops) else [ops]
+    state = {}
+    lazy_keys = []
     for n, chunk in enumerate(sessions):
-        pre = None
+        # key lookups go through sqlite3.executescript, which commits implicitly: in a session that uses a
+        # second handle or explicit commits nothing is looked up between the last write and close
+        view_mode = any(op["op"] in VIEW_OPS for op in chunk)
+        state["view"] = None
+        by_lookup = None
         index = DataIndex.open(path)
         try:
-            apply_ops(index, chunk, model)
-            index.commit()
-            got, by_lookup = read_open_index(index)
+            apply_ops(index, chunk, model, state)
             if lazy and n == len(sessions) - 1:
-                pre = lazy_phase(index, lazy, d, classes)
+                lazy_phase(index, lazy, d, classes)
+                lazy_keys = [lazy_dir_key(i, sp) for i, sp in enumerate(lazy["dirs"])]
+            closer = get_view(index, state) if final_commit == "view" else None
+            (closer if closer is not None else index).commit()
+            pre = snapshot(index)   # read-only (plain SELECTs): what the open parent handle reports before close
+            if not view_mode:
+                got, by_lookup = read_open_index(index)
         finally:
+            state["view"] = None
             index.close()
-        compare_index(f"sqlite-open{n}", model, got, viols)
-        compare_index(f"sqlite-open{n}-lookup", model, by_lookup, viols)
+        under = lambda k: any(k[:len(lk)] == lk for lk in lazy_keys)  # noqa: E731
+        if by_lookup is not None:
+            compare_index(f"sqlite-open{n}", model, {k: v for k, v in got.items() if not under(k)}, viols)
+            compare_index(f"sqlite-open{n}-lookup", model,
+                          {k: v for k, v in by_lookup.items() if not under(k)}, viols)
         index = DataIndex.open(path)
         try:
-            post = snapshot(index) if pre is not None else None
+            post = snapshot(index)
             got, by_lookup = read_open_index(index)
             n_items = len(index)
         finally:
             index.close()
-        expect_len = len(model)
-        if pre is not None:
-            compare_snapshots("sqlite-lazy-reopen", pre, post, viols)
-            lazy_keys = [lazy_dir_key(i, sp) for i, sp in enumerate(lazy["dirs"])]
-            under = lambda k: any(k[:len(lk)] == lk for lk in lazy_keys)  # noqa: E731
-            got = {k: v for k, v in got.items() if not under(k)}
-            by_lookup = {k: v for k, v in by_lookup.items() if not under(k)}
-            expect_len = len(pre)
-        compare_index("sqlite-reopen", model, got, viols)
-        compare_index("sqlite-reopen-lookup", model, by_lookup, viols)
-        if n_items != expect_len:
-            viols.append(Viol("sqlite-reopen:len", f"len() = {n_items} for {expect_len} stored keys"))
+        compare_snapshots("sqlite-lazy-reopen" if lazy_keys else "sqlite-handle-vs-reopen", pre, post, viols)
+        compare_index("sqlite-reopen", model, {k: v for k, v in got.items() if not under(k)}, viols)
+        compare_index("sqlite-reopen-lookup", model, {k: v for k, v in by_lookup.items() if not under(k)}, viols)
+        if n_items != len(pre):
+            viols.append(Viol("sqlite-reopen:len", f"len() = {n_items} for {len(pre)} keys reported before close"))
     return model
 
 
@@ -492,19 +552,38 @@ def arm_tree(model, hash_name, order, viols, rel_code=None, classes=None):
 # ------------------------------------------------------------------------------------------
 # run_case
 # ------------------------------------------------------------------------------------------
+def _check_parts(parts):
+    for p in parts:
+        assert isinstance(p, str) and p and "/" not in p and "\0" not in p, parts
+
+
 def validate(case):
     for op in case["ops"]:
-        assert op["op"] in ("set", "del", "mutate")
+        assert op["op"] in ("set", "del", "mutate", *VIEW_OPS)
+        if op["op"] == "view":
+            assert op["prefix"], "a view needs a non-empty prefix"
+            _check_parts(op["prefix"])
+            continue
+        if op["op"] == "commit":
+            assert op["via"] in ("parent", "view")
+            continue
+        if op["op"] in ("vset", "vdel"):
+            # reserved last part: a key written through a view is never written through the parent handle
+            # (the identity cache is per handle; cross-handle coherence is not part of the statement)
+            assert op["name"] and op["name"][-1].startswith("vw")
+            _check_parts(op["name"])
+        else:
+            _check_parts(op["key"])
+            assert not any(p.startswith("vw") or p.startswith("lzd") for p in op["key"])
         if op["op"] == "mutate":
             assert op["field"] == "loaded" or op["field"] in SERIALISED
-        for p in op["key"]:
-            assert isinstance(p, str) and p and "/" not in p and "\0" not in p, op["key"]
-        if op["op"] == "set":
+        if op["op"] in ("set", "vset"):
             ms = op["meta"]
             if ms is not None:
                 for f in ("size", "nfiles"):
                     assert ms.get(f) is None or 0 <= ms[f] < 2 ** 63
             assert op["loaded"] in (None, True, False)
+    assert case.get("final_commit", "parent") in ("parent", "view")
     assert set(case["forms"]) <= {"json", "db", "sqlite", "tree"}
     if case.get("lazy"):
         assert "sqlite" in case["forms"]
@@ -522,15 +601,31 @@ def validate(case):
 def final_model(ops, drop_root):
     model = {}
     order = []
+    state = {"vkeys": set()}
     for op in ops:
+        kind = op["op"]
+        if kind in VIEW_OPS:
+            if kind == "view":
+                state["prefix"] = tuple(op["prefix"])
+            elif kind in ("vset", "vdel") and state.get("prefix") is not None:
+                full = view_full_key(state, op)
+                if kind == "vset":
+                    if full not in model:
+                        order.append(full)
+                    model[full] = dict(op, op="set", key=list(full))
+                    state["vkeys"].add(full)
+                elif full in model and full in state["vkeys"]:
+                    del model[full]
+                    order.remove(full)
+            continue
         key = tuple(op["key"])
         if drop_root and not key:
             continue
-        if op["op"] == "set":
+        if kind == "set":
             if key not in model:
                 order.append(key)
             model[key] = op
-        elif op["op"] == "mutate":
+        elif kind == "mutate":
             if key in model:
                 model[key] = mutated_spec(model[key], op["field"], op["value"])
         elif key in model:
@@ -566,7 +661,8 @@ def run_case(case, ctx):
             arm_db(model, order, d, viols)
         full = None
         if "sqlite" in forms:
-            full = arm_sqlite(ops, case.get("split", 0), d, viols, case.get("lazy"), classes)
+            full = arm_sqlite(ops, case.get("split", 0), d, viols, case.get("lazy"), classes,
+                              case.get("final_commit", "parent"))
         if "tree" in forms:
             n_tree = arm_tree(model, case.get("tree_hash", "md5"), order, viols, case.get("tree_rel"), classes)
 
@@ -590,12 +686,34 @@ def run_case(case, ctx):
             classes.append("sqlite:two-sessions")
         if any(not op["key"] for op in ops if op["op"] == "set"):
             classes.append("sqlite:root-key")
+        if any(op["op"] == "view" for op in ops):
+            classes.append("sqlite:view-taken")
+            classes.append("sqlite:final-commit=" + case.get("final_commit", "parent"))
+            # who wrote last before the end of the program, and through which handle the data is committed
+            last_writer = None
+            for op in ops:
+                if op["op"] in ("vset", "vdel"):
+                    last_writer = "view"
+                elif op["op"] in ("set", "del", "mutate"):
+                    last_writer = "parent"
+            if last_writer:
+                classes.append(f"sqlite:last-writer={last_writer}/final-commit={case.get('final_commit', 'parent')}")
+            run = best = 0
+            for op in ops:
+                run = run + 1 if op["op"] in ("vset", "vdel") else 0
+                best = max(best, run)
+            if best >= 2:
+                classes.append("sqlite:view-writes-in-a-row>=2")
+        if any(op["op"] == "commit" for op in ops):
+            classes.append("sqlite:explicit-commit")
     if n_tree:
         classes.append("tree-hash=" + case.get("tree_hash", "md5"))
     seen = set()
     cur, written_at = {}, {}
     split = case.get("split", 0) if 0 < case.get("split", 0) < len(ops) else 0
     for n, op in enumerate(ops):
+        if op["op"] in VIEW_OPS:
+            continue
         k = tuple(op["key"])
         if op["op"] == "set" and k in seen:
             classes.append("overwrite")
@@ -735,6 +853,19 @@ _LAZY = st.one_of(st.none(), st.tuples(st.lists(_LAZY_DIR, min_size=1, max_size=
                                        st.sampled_from(["generic", "local"]), st.booleans()))
 
 
+_VWRITE = st.tuples(st.lists(st.sampled_from(ALL_PARTS), max_size=2), st.integers(0, 3), _META, _HASH,
+                    st.sampled_from([None, True, False]), st.sampled_from(["vset", "vset", "vset", "vdel"]))
+_VIEW_BLOCK = st.one_of(st.none(), st.tuples(
+    st.lists(st.sampled_from(ALL_PARTS), min_size=1, max_size=2),      # prefix
+    st.lists(_VWRITE, min_size=0, max_size=4),                         # writes through the view, in a row
+    st.sampled_from(["none", "parent", "parent", "view"]),             # commit right before taking the view
+    st.sampled_from(["none", "none", "view"]),                         # commit through the view right after taking it
+    st.sampled_from(["none", "none", "parent", "view"]),               # commit after the writes
+    st.integers(0, 3),                                                 # distance of the block from the end
+    st.sampled_from(["parent", "view"]),                               # handle of the session-ending commit
+))
+
+
 def _prefix_free_rows(rows):
     out = []
     for rel, tok, extra in rows:
@@ -783,7 +914,27 @@ def cases(draw):
         ops = ops[:] + [new]
     case = {"ops": ops, "forms": forms, "split": split, "tree_hash": tree_hash, "tree_rel": tree_rel}
     if "sqlite" in forms:
-        lazy = draw(_LAZY)
+        block = draw(_VIEW_BLOCK)
+        if block is not None:
+            prefix, writes, c_before, c_taken, c_after, back, final = block
+            steps = []
+            if c_before != "none":
+                steps.append({"op": "commit", "via": c_before})
+            steps.append({"op": "view", "prefix": prefix})
+            if c_taken != "none":
+                steps.append({"op": "commit", "via": c_taken})
+            for parts, n, meta, hsh, loaded, kind in writes:
+                name = [*parts, f"vw{n}"]
+                if kind == "vset":
+                    steps.append({"op": "vset", "name": name, "meta": meta, "hash": hsh, "loaded": loaded})
+                else:
+                    steps.append({"op": "vdel", "name": name})
+            if c_after != "none":
+                steps.append({"op": "commit", "via": c_after})
+            pos = max(0, len(case["ops"]) - back)
+            case["ops"] = case["ops"][:pos] + steps + case["ops"][pos:]
+            case["final_commit"] = final
+        lazy = None if block is not None else draw(_LAZY)
         if lazy is not None:
             dirs, store, commit_first = lazy
             case["lazy"] = {
